@@ -72,6 +72,9 @@ var formatCorpus = []struct{ ext, text string }{
 	{"json", "{\"s\":[\"\\u00e9\\n\\t\\\"\\\\\\/\",\"\"],\"n\":null,\"b\":[true,false],\"e\":{},\"l\":[]}"},
 	{"json", "{\"big\":9223372036854775807,\"min\":-9223372036854775808,\"f\":0.30000000000000004,\"t\":5e-324}"},
 	{"json", "[1,2]\n\"text\"\n3\n"},
+	// .jsonl is an alias of .json: documents may span lines there too
+	{"jsonl", "{\n  \"a\": 1,\n  \"l\": [\n    1,\n    2\n  ]\n}\n{\"b\": 2}\n"},
+	{"jsonl", "{\"a\":1}\n{\"b\":\n2}\n\n{\"c\":[\n]}"},
 }
 
 // corpusLayouts turns the corpus into single-layer layouts whose documents are
@@ -84,6 +87,7 @@ func longLineTexts() []struct{ ext, text string } {
 		{"toml", "port = 8080\nblob = \"" + blob + "\"\nextra = true\n[tags]\nenv = \"prod\"\n---\nsecond = 2\n"},
 		{"yaml", "port: 8080\nblob: \"" + blob + "\"\nextra: true\ntags:\n  env: prod\n---\nsecond: 2\n"},
 		{"json", "{\"port\": 8080, \"blob\": \"" + blob + "\", \"extra\": true, \"tags\": {\"env\": \"prod\"}}\n{\"second\": 2}\n"},
+		{"jsonl", "{\"port\": 8080, \"blob\": \"" + blob + "\", \"extra\": true}\n{\"second\": 2}\n"},
 	}
 }
 
